@@ -3,7 +3,8 @@ use indexmap::IndexMap;
 use java_string::{JavaStr, JavaString};
 use duke::tree::annotation::{Annotation, ElementValue, ElementValuePair};
 use duke::tree::class::{ClassFile, ClassName, ClassSignature, EnclosingMethod, InnerClass, ObjClassName, ObjClassNameSlice};
-use duke::tree::field::{Field, FieldDescriptor, FieldRef, FieldSignature};
+use duke::tree::descriptor::{ParsedFieldDescriptor, Type};
+use duke::tree::field::{Field, FieldDescriptor, FieldNameSlice, FieldRef, FieldSignature};
 use duke::tree::method::{Method, MethodDescriptor, MethodNameAndDesc, MethodParameter, MethodRef, MethodSignature};
 use duke::tree::method::code::{Code, ConstantDynamic, Exception, Handle, Instruction, InstructionListEntry, InvokeDynamic, Loadable, Lv};
 use duke::tree::type_annotation::TypeAnnotation;
@@ -339,13 +340,26 @@ impl Mappable for ElementValuePair {
 
 impl Mappable for ElementValue {
 	fn remap(self, remapper: &impl BRemapper) -> Result<Self> {
+		/// The constant of an enum element value is a field of the enum class: `type_name` is the descriptor of that
+		/// class, and the constant is declared with that descriptor.
+		fn map_enum_const_name(remapper: &impl BRemapper, type_name: &FieldDescriptor, const_name: JavaString) -> Result<JavaString> {
+			let Ok(ParsedFieldDescriptor(Type::Object(enum_class))) = type_name.parse() else {
+				// not the descriptor of a class: there is no class to look the constant up in
+				return Ok(const_name);
+			};
+			let Ok(field_name) = <&FieldNameSlice>::try_from(const_name.as_java_str()) else {
+				// no field can have this name
+				return Ok(const_name);
+			};
+			Ok(remapper.map_field(&enum_class, field_name, type_name)?.name.into_inner())
+		}
+
 		use ElementValue::*;
 		Ok(match self {
 			Object(x) => Object(x),
 			Enum { type_name, const_name } => Enum {
+				const_name: map_enum_const_name(remapper, &type_name, const_name)?,
 				type_name: type_name.remap(remapper)?,
-			// TODO: this one needs remapping!
-				const_name,
 			},
 			Class(class_name) => Class(remapper.map_return_desc(&class_name)?),
 			AnnotationInterface(annotation) => AnnotationInterface(annotation.remap(remapper)?),
